@@ -18,7 +18,7 @@ from tsv.props.c04 import all_nodes
 POOL_CMD = ['foo', 'bar', 'ref', 'emph', 'x', 'hspace*']
 POOL_ENV = ['a', 'center', 'theorem', 'table*']
 # by-name queries that also denote an unnamed math region are not used
-AMBIGUOUS = {'math', 'displaymath'}
+AMBIGUOUS = {'math', 'displaymath', 'BraceGroup', 'BracketGroup'}
 ABSENT = ['nosuchname', 'zzz']
 
 
@@ -144,7 +144,15 @@ class C03(Prop):
                     full.append(c.begin + str(c.args))
                 elif s.startswith('\\'):
                     full.append(s)
-        full = sorted(set(full))[:6]
+        items = sorted(set(str(c) for c in R.closure(soup.expr)
+                           if not R.is_text(c) and getattr(c, 'name', None) == 'item'
+                           and ('{' in str(c) or '[' in str(c)) and len(str(c)) < 80))[:3]
+        full = sorted(set(full))[:6] + items
+        # a full-expression query matches text *equal* to it: variants that
+        # differ in outer whitespace are different queries
+        full += [q.rstrip() for q in full if q.rstrip() != q] + \
+                [q + ' ' for q in full[:2]] + [q.rstrip() + '\n' for q in full[:2]] + [' ' + q for q in full[:1]]
+        full = sorted(set(full))
         listq = [names[:2] + ['nosuchname']] if names else []
         # the names TexSoup gives to unnamed regions and groups never occur in
         # the text of their nodes; judged against the raw-tree walk only
